@@ -176,7 +176,8 @@ def check_valid(case, ctx: Ctx):
     res, errors = res
     raw = res.raw()
     try:
-        M.compare(flat, raw.get("components", []), _parse_reference)
+        M.compare(flat, raw.get("components", []), _parse_reference,
+                  (raw.get("environments") or {}).get("default") or {})
     except M.Mismatch as m:
         raise Violation(m.sig, "%s\n%s" % (m.message, where))
     if errors:
